@@ -279,6 +279,12 @@ class Cx:
         from symnum.core import ENGINE
         from symnum import poly
         if ENGINE.square_rules and poly.equal_modulo(zx, zy, ENGINE.square_rules):
+            if os.environ.get("VERIF_NF_CROSSCHECK") == "1":
+                # development aid: the SMT solver must not find a model of x != y under the assumptions
+                from symnum import solver
+                r, m, dt, _ = solver.check([zx != zy], timeout_ms=5000)
+                self.records.append(dict(label="nf-crosscheck", verdict="unsat" if r != "sat" else "sat",
+                                         secs=round(dt, 4), path=self.npaths, crosscheck=r))
             return True
         return False
 
